@@ -9,6 +9,7 @@ import (
 	"sort"
 	"strconv"
 	"strings"
+	"sync/atomic"
 	"time"
 
 	"github.com/spq/pkappa2/internal/index/manager"
@@ -51,7 +52,7 @@ type Sim struct {
 	scratch string
 	dirs    oracle.Dirs
 	capt    *netsim.Capture
-	mgr     *manager.Manager
+	mgrp    atomic.Pointer[manager.Manager]
 	alive   bool
 
 	jobs        []*jobRec
@@ -80,11 +81,12 @@ type Sim struct {
 	or *oracles
 }
 
-//go:norace
-func (s *Sim) curMgr() *manager.Manager { return s.mgr }
+// The manager pointer is published with an atomic store/load: in the real
+// program the manager is fully constructed before any request handler can
+// see it, and that happens-before edge (and only that one) is reproduced here.
+func (s *Sim) curMgr() *manager.Manager { return s.mgrp.Load() }
 
-//go:norace
-func (s *Sim) setMgr(m *manager.Manager) { s.mgr = m }
+func (s *Sim) setMgr(m *manager.Manager) { s.mgrp.Store(m) }
 
 // ---- framing over raw pipes -------------------------------------------------
 
